@@ -10,7 +10,7 @@
     have their own sections below. *)
 From Coq Require Import List ZArith NArith Bool Arith Lia Permutation Sorting.Sorted.
 From PQ Require Import Sort.Model Sort.ListLemmas Sort.ColProofs Sort.PageProofs
-     Sort.TypedProofs Sort.CmpProofs Sort.BufProofs Sort.OrderProofs Sort.Instances
+     Sort.TypedProofs Sort.CmpProofs Sort.BufProofs Sort.ViewProofs Sort.OrderProofs Sort.Instances
      Sort.Repeated Sort.RepeatedProofs Sort.Kinds.
 From PQ Require Merge.Model Merge.AbstractProofs.
 From PQ Require Import Sort.Writer Sort.WriterProofs Sort.WriterInstance.
@@ -28,12 +28,17 @@ Section C10.
   Hypothesis cmp_trans : forall a b d, (cmp a b <= 0 -> cmp b d <= 0 -> cmp a d <= 0)%Z.
 
   (** For EVERY history of operations (Write batch through WriteValues or
-      through the typed run path | Swap i j | Page) on a buffer of required and
+      through the typed run path | Swap i j | Page | Page of ONE column k, which
+      is what the column-level API does: ColumnBuffers()[k].Page(), Pages(),
+      ReadValuesAt with a pending reorder) on a buffer of required and
       optional columns: the logical rows (every column read through its row ->
       value map) are exactly what the same operations do to a plain list of
-      whole rows — Write appends, Swap exchanges two rows, Page changes
-      nothing — and so are the rows a reader of the pages sees; they are a
-      permutation of the rows written. *)
+      whole rows — Write appends, Swap exchanges two rows, Page (of all columns
+      or of one) changes nothing — and so are the rows a reader of the pages of
+      the columns sees (every column read through its own Page, whether or not
+      its values had been moved into row order before, which is also what the
+      Page of a clone of the column holds: Clone copies every field of the
+      column); they are a permutation of the rows written. *)
   Theorem C10_swaps_preserve_rows : forall schema sorting ops,
     schema <> [] -> Forall (op_ok V schema) ops ->
     buffer_rows V (reach V schema sorting ops) = spec_run V schema ops /\
@@ -52,6 +57,18 @@ Section C10.
     i < length l -> j < length l ->
     nth_error (swapl l i j) k = nth_error l (if Nat.eqb k i then j else if Nat.eqb k j then i else k).
   Proof. exact (@nth_error_swapl (row V)). Qed.
+
+  (** ColumnBuffers()[k].ReadValuesAt(values[:n], off) after EVERY such history
+      delivers the cells [off, off+n) of column k of the rows of the
+      specification (nulls at the positions of the null rows, fewer than n
+      cells at the end of the column), and leaves column k as Page leaves it. *)
+  Theorem C10_read_values_at_is_window_of_rows : forall schema sorting ops k off n,
+    Forall (op_ok V schema) ops -> k < length schema ->
+    buffer_read_values_at V (reach V schema sorting ops) k off n
+      = firstn n (skipn off (map (fun r => nth k r (dcell V)) (spec_run V schema ops))) /\
+    fst (col_read_values_at V (nth k (columns (reach V schema sorting ops)) (dcol V)) off n)
+      = col_page V (nth k (columns (reach V schema sorting ops)) (dcol V)).
+  Proof. exact (read_values_at_rows V). Qed.
 
   (** After Page, in every optional column the base values are in row order:
       the non-null rows are numbered 0..k-1 in place, the column is no longer
@@ -151,6 +168,7 @@ End C10.
 Print Assumptions C10_swaps_preserve_rows.
 Print Assumptions C10_swap_exchanges_rows.
 Print Assumptions C10_swapl_exchanges_exactly.
+Print Assumptions C10_read_values_at_is_window_of_rows.
 Print Assumptions C10_page_puts_base_in_row_order.
 Print Assumptions C10_typed_write_is_write_values.
 Print Assumptions C10_comparator_rule.
@@ -541,7 +559,38 @@ Example C10_ex_less_matrix :
    [false; false; false; false; false]].
 Proof. vm_compute. reflexivity. Qed.
 
+(* ReadValuesAt on the sorted buffer of the example, before anything read it (the values of
+   the optional columns are not yet in row order): 3 cells of column 1 from offset 1, and a
+   destination longer than what is left of column 2 *)
+Example C10_ex_read_values_at :
+  let b := reach sval ex_schema ex_sorting (ex_ops ++ swap_ops sval ex_sort2) in
+  buffer_read_values_at sval b 1 1 3 = [(Some (VI 7), 1%N); (Some (VI 5), 1%N); (Some (VI 5), 1%N)] /\
+  buffer_read_values_at sval b 2 3 9 = [(None, 0%N); (Some (VB [97%N]), 2%N)] /\
+  map (fun r => nth 1 r (dcell sval)) (spec_run sval ex_schema (ex_ops ++ swap_ops sval ex_sort2)) =
+  [(Some (VI 9), 1%N); (Some (VI 7), 1%N); (Some (VI 5), 1%N); (Some (VI 5), 1%N); (None, 0%N)].
+Proof. vm_compute. repeat split; reflexivity. Qed.
+
 (** * The tree before the repairs refutes the statements *)
+
+(** (0) before 0e9a630, ReadValuesAt of an optional column read the base values where they
+    were: after the two exchanges that sort (3,30) (1,null) (2,20) by the first column, the
+    levels are in the new order and the values are not: [null; 30; 20] instead of the column
+    [null; 20; 30] of the rows, which C10_read_values_at_is_window_of_rows gives for the
+    present code. *)
+Definition rva_ops : list (op sval) :=
+  [OWrite false [[WVal (VI 3); WVal (VI 30)]; [WVal (VI 1); WNull 0%N]; [WVal (VI 2); WVal (VI 20)]];
+   OSwap 0 1; OSwap 1 2].
+
+Theorem C10_read_values_at_without_page_refuted :
+  let b := reach sval [0; 1]%N [mkSortcol 0 false false] rva_ops in
+  let column := map (fun r => nth 1 r (dcell sval)) (spec_run sval [0; 1]%N rva_ops) in
+  match nth 1 (columns b) (dcol sval) with
+  | COpt o => ocol_read_values_at_pinned sval o 0 3
+  | CReq _ => []
+  end <> column /\
+  buffer_read_values_at sval b 1 0 3 = column /\
+  column = [(None, 0%N); (Some (VI 20), 1%N); (Some (VI 30), 1%N)].
+Proof. vm_compute. split; [discriminate|split; reflexivity]. Qed.
 
 (** (a) before 61e14ff, Page renumbered "rows[i] = i" at the non-null counter:
     write [v0; null; v1], one exchange (what sort.Sort does), Page, write one
@@ -788,3 +837,4 @@ Proof.
 Qed.
 
 Print Assumptions C10_sorting_writer_no_reset_refuted.
+Print Assumptions C10_read_values_at_without_page_refuted.
